@@ -152,7 +152,9 @@ def _interpolator(ev, xgrid, polynomial_degree, mode_N=True, **kw):
 
         return S._NativeFn(is_below_x)
 
-    basis = [S.record(f"bf{j}", poly_number=j, is_below_x=mk_below(j)) for j in range(len(xgrid.attrs["raw"]))]
+    # a basis function is callable: its value at a point is the inert atom basis_at(j, point)
+    basis = [S.record(f"bf{j}", poly_number=j, is_below_x=mk_below(j), __call__=S._NativeFn(lambda x, j=j: A.opaque("basis_at", (j, S.num_norm(x)))))
+             for j in range(len(xgrid.attrs["raw"]))]
     o = S.record("InterpolatorDispatcher", xgrid=xgrid, degree=degree, _below_calls=below_calls)
     o.store["__list__"] = basis
     o.attrs["to_dict"] = S._NativeFn(lambda: {"xgrid": {"grid": list(xgrid.attrs["raw"]), "log": xgrid.attrs["log"]},
@@ -275,7 +277,10 @@ def guard_not_triggered(node):
                     # an `and` that must be false / an `or` that must be true: one operand suffices; the analysed path is the one on which the
                     # FIRST operand decides (short circuit: later operands - e.g. a tolerance test softening the bound - are not evaluated).
                     # That is the path of a point inside the documented domain; what the softened bound lets through is C16.kin's business.
-                    return want(v, value) if i == 0 else None
+                    # An operand further right is only ever evaluated when the operands before it did not decide (short circuit), and the
+                    # first *symbolic* operand is always decided here - so the earlier ones were concrete (`not use_raw and x < xmin`): this
+                    # operand is then the first one that can keep the guard from being taken.
+                    return want(v, value)
         return None
 
     return want(g.test, False)
@@ -490,7 +495,20 @@ def _is_empty_rsl(rsl):
     return all(rsl.attrs.get(p) is None for p in ("reg", "sing", "loc"))
 
 
-def _convolve_vector(ev, cf, interpolator, convolution_point):
+def _extras_given(extra, kw):
+    return [v for v in list(extra) + list(kw.values()) if v is not None]
+
+
+def _convolve_vector(ev, cf, interpolator, convolution_point, *extra, **kw):
+    if _extras_given(extra, kw):
+        # the routine is handed more than (kernel, basis, point) - e.g. basis values the caller has already evaluated: nothing can be said
+        # about the result without walking the routine's own body (its convolution(...) calls arrive at the summary below)
+        fi = ev.proj.func("yadism.esf.conv", "convolve_vector")
+        summ = ev.summaries.pop(fi.fq)
+        try:
+            return ev.call(S.FuncVal(ev, fi), [cf, interpolator, convolution_point, *extra], dict(kw))
+        finally:
+            ev.summaries[fi.fq] = summ
     if _is_empty_rsl(cf):
         # conv.convolution of a distribution without any part: no integral, no local term -> exactly (0, 0) (decided in C01.integrand)
         n = len(interpolator.store["__list__"])
@@ -553,12 +571,31 @@ def _ad_projectors_factory(ev):
     return ad_projectors
 
 
-def _convolution(ev, rsl, x, pdf_func):
+def _convolution(ev, rsl, x, pdf_func, *extra, **kw):
     if _is_empty_rsl(rsl):
         return (0, 0)
     key = rsl_key(rsl)
     RSL_REGISTRY[key] = rsl
     j = pdf_func.attrs.get("poly_number")
+    given = _extras_given(extra, kw)
+    if given:
+        # the only thing a caller can usefully hand over is the basis function's value at the convolution point (the local and the
+        # subtraction terms need it): it must be the value of THIS basis function at THIS point, otherwise the result is another quantity
+        own = A.canon(A.opaque("basis_at", (j, S.num_norm(x))))
+        tags = []
+        for v in given:
+            try:
+                c = A.canon(S.num_norm(v))
+            except Exception:
+                raise Undecided(f"convolution(...) receives an extra argument of type {type(v).__name__}")
+            if not c.startswith("basis_at("):
+                raise Undecided(f"convolution(...) receives an extra argument {c[:60]}")
+            if c != own:
+                tags.append(c)
+        if tags:
+            ev.__dict__.setdefault("mixed_points", []).append(f"a convolution at the point {A.canon(S.num_norm(x))[:60]} takes its local and subtraction terms "
+                                                              f"from {tags[0][:80]} (kernel {key[:80]})")
+            key = key + "|local and subtraction terms use " + ",".join(tags) + " instead of " + own
     return (A.opaque("conv", (key, S.num_norm(x), j)), A.opaque("converr", (key, S.num_norm(x), j), positive=True))
 
 
